@@ -108,6 +108,11 @@ __CPROVER_ensures(v == 0 ==> this->_flags == 0)
 #ifdef HAVE_STD_STRING
 struct std_string _ZNK4bloc5Value8toStringB5cxx11Ev(const struct Value *this) { struct std_string s; (void)this; ((unsigned long *)&s)[1] = __g2c_nondet_ulong(); return s; }
 struct std_string _ZNK4bloc9TupleDecl4Decl9tupleNameB5cxx11Ev(const void *this) { struct std_string s; (void)this; ((unsigned long *)&s)[1] = __g2c_nondet_ulong(); return s; }
+/* static std::string Value::readableNumeric(double&) / readableInteger...: the text of a number (libc formatting: any length) */
+struct std_string _ZN4bloc5Value15readableIntegerB5cxx11ERl(long *l) { struct std_string s; (void)l; ((unsigned long *)&s)[1] = __g2c_nondet_ulong(); return s; }
+struct std_string _ZN4bloc5Value15readableBooleanB5cxx11ERb(_Bool *b) { struct std_string s; (void)b; ((unsigned long *)&s)[1] = __g2c_nondet_ulong(); return s; }
+struct std_string _ZN4bloc5Value17readableImaginaryB5cxx11ERNS_9ImaginaryE(void *i) { struct std_string s; (void)i; ((unsigned long *)&s)[1] = __g2c_nondet_ulong(); return s; }
+struct std_string _ZN4bloc5Value15readableNumericB5cxx11ERd(double *d) { struct std_string s; (void)d; ((unsigned long *)&s)[1] = __g2c_nondet_ulong(); return s; }
 struct std_string _ZNK4bloc5Value8typeNameB5cxx11Ev(const struct Value *this) { struct std_string s; (void)this; ((unsigned long *)&s)[1] = __g2c_nondet_ulong(); return s; }
 #endif
 
